@@ -24,6 +24,8 @@ def obligations(tier, seed):
                "every finite f64 (2^64 bit patterns) x six uniform scales", tq=2400),
         KaniOb("c17", "c17_float_constructor_wrappers", "from_mjd_<scale> / from_jde_<scale> hand (x, their scale) to from_mjd_in_time_scale / from_jde_in_time_scale", ["Epoch::from_mjd_tai/utc/gpst/qzsst/gst/bdt", "Epoch::from_jde_tai/utc/gpst/qzsst/gst/bdt"],
                "every finite f64", tq=1200),
+        KaniOb("c17", "c17_float_constructors_small_inputs", "from_mjd_in_time_scale end to end (real Unit x f64) on quarter-day inputs around the MJD origin, negative non-integers included: equals (x - 15020) days and the exact integer instant",
+               ["Epoch::from_mjd_in_time_scale", "impl Mul<f64> for Unit", "Duration::from_truncated_nanoseconds"], "x = k/4 days, |k| < 16384", tq=2400),
         KaniOb("c17", "c17_float_views_total", "float-valued views: finite, no panic, sign of the exact value", ["Epoch::to_tai_seconds / to_tai_days / to_mjd_tai_days / to_jde_tai_days", "Duration::to_seconds", "Duration::to_unit"],
                "TAI epochs, |centuries| < 110", tq=900),
     ]
